@@ -106,8 +106,8 @@ Definition flat_agrees (debug : bool) (budget : nat) (P : program) (s0 : state) 
   | _ =>
       outcome_eqb mf m && list_eqb N.eqb (firstn 4 (shape_of sf)) (firstn 4 (shape_of s1)) &&
       list_eqb (list_eqb tval_eqb) (st_log sf) (st_log s1) &&
-      list_eqb tval_eqb (map (tree_of flocq_ops (st_heap sf)) (st_globals sf))
-                        (map (tree_of flocq_ops (st_heap s1)) (st_globals s1)) &&
+      list_eqb (opt_eqb tval_eqb) (map (option_map (tree_of flocq_ops (st_heap sf))) (st_globals sf))
+                                  (map (option_map (tree_of flocq_ops (st_heap s1))) (st_globals s1)) &&
       N.eqb (st_count sf) (st_count s1)
   end.
 
